@@ -18,7 +18,8 @@ AbsentTok == "absent"
 
 (* ---------------- Prop layer ------------------------------------------ *)
 
-\* inv = [spec : STRING, comp, client, api : BOOLEAN, fail : Nat]
+\* inv = [spec : STRING, comp, client, api, dne : BOOLEAN, fail : Nat]
+\* dne   - the "DO NOT EDIT" header is written (the CLI default; --donotedit=false switches it off)
 \* comp  - the spec has components that render (gen.Components.LenToRender() > 0)
 \* fail  - 0: the invocation succeeds; k > 0: it returns an error when it reaches step k
 Wants(inv, f) == CASE f = "components.go" -> inv.comp
@@ -26,8 +27,9 @@ Wants(inv, f) == CASE f = "components.go" -> inv.comp
                    [] f = "client.go"      -> inv.client
                    [] OTHER                -> FALSE
 
-\* The model's idea of file bytes: a function of the spec and the file only.
-ContentOf(inv, f) == inv.spec \o ":" \o f
+\* The model's idea of file bytes: a function of the spec, the header option and the file only.
+ContentOf(inv, f) == inv.spec \o ":" \o f \o (IF inv.dne THEN "" ELSE ":noheader")
+HasHeader(tok) == tok # AbsentTok /\ \A s \in {"s0", "s1", "s2", "sP", "sH"}, f \in Owned : tok # s \o ":" \o f \o ":noheader"
 
 ModelFresh(inv) == [f \in Owned |-> IF Wants(inv, f) THEN ContentOf(inv, f) ELSE AbsentTok]
 
@@ -56,4 +58,8 @@ Steps(inv) ==
 
 Apply(dir, inv, s) == IF s.op = "write" THEN [dir EXCEPT ![s.f] = ContentOf(inv, s.f)]
                                          ELSE [dir EXCEPT ![s.f] = AbsentTok]
+\* guarded = TRUE models a class of defect the property excludes: a run that writes the header removes a stale file
+\* only when that file carries the header ("it might be the user's") - but whether it does depends on the options
+\* of the earlier run that wrote it.
+ApplyG(dir, inv, s, guarded) == IF s.op = "remove" /\ guarded /\ inv.dne /\ ~HasHeader(dir[s.f]) THEN dir ELSE Apply(dir, inv, s)
 =============================================================================
